@@ -20,7 +20,7 @@ open(m, "w").write(s)
 p = os.path.join(V, "coq/Props/Properties_C13.v")
 s = open(p).read()
 def drop(name, s):
-    return re.sub(r"\n(?:Theorem|Example) %s\b.*?\nQed\.\n(?:Print Assumptions %s\.\n)?" % (name, name), "\n", s, flags=re.S)
+    return re.sub(r"\n(?:Theorem|Example) %s\b.*?Qed\.\n(?:Print Assumptions %s\.\n)?" % (name, name), "\n", s, flags=re.S)
 for w in which:
     s = drop(stem[w] + "_refuted", s)
     s = drop(stem[w] + "_partial", s)
